@@ -71,6 +71,24 @@ def shape_twins(r, n):
         out.append(T.Node(r.choice(["Gal", "Man", "Glc"]), arms))
     return out
 
+def bicyclic_roots(r, n):
+    """1,6-anhydro reducing ends with two or three substituents, one of them a chain: which of them is written as the
+    main chain (and is therefore walked last) must not matter"""
+    out = []
+    for _ in range(n):
+        root = r.choice(["1,6-Anhydro-Glc", "1,6-Anhydro-Gal"])
+        poss = r.sample([2, 3, 4], r.choice([2, 3]))
+        kids = []
+        for i, p_ in enumerate(poss):
+            leaf = T.Node(r.choice(["Man", "Fuc", "Gal", "Xyl"]))
+            if i == 0:
+                kids.append((r.choice("ab"), 1, p_, T.Node(r.choice(["Gal", "Glc", "Man"]), [(r.choice("ab"), 1, r.choice([2, 3]), leaf)])))
+            else:
+                kids.append((r.choice("ab"), 1, p_, leaf))
+        r.shuffle(kids)
+        out.append(T.Node(root, kids))
+    return out
+
 
 def make_trees(r, tier):
     n = 60 if tier == "quick" else 600
@@ -91,7 +109,7 @@ def make_trees(r, tier):
             t = T.random_tree(r, size, names=["Gal", "Galf", "Ara", "Araf", "Xyl", "Xylf", "Glc", "Glcf", "Fruf", "Neu5Ac", "GlcN", "Kdo", "Rib", "Ribf"], p_branch=0.4)
         suffix = r.choice(["", "", " a", " b"]) if k != 3 else ""
         out.append((t, suffix))
-    for t in shape_twins(r, 6 if tier == "quick" else 60):
+    for t in shape_twins(r, 6 if tier == "quick" else 60) + bicyclic_roots(r, 6 if tier == "quick" else 40):
         out.append((t, ""))
     # four substituents on a non-root residue, on the root, and nested (the 12-children production of the grammar)
     four = T.Node("Glc", [("b", 1, 4, T.Node("Man", [("a", 1, 2, T.Node("Gal")), ("a", 1, 3, T.Node("Fuc")), ("b", 1, 4, T.Node("Xyl")), ("a", 2, 6, T.Node("Neu5Ac"))]))])
